@@ -90,7 +90,7 @@ pub fn proxy_config(addr: &str, pp: &ProxyParams) -> ServerProxyConfig {
 /// and registers it as a SimNet endpoint.
 pub fn spawn_proxy(net: &Net, addr: &str, pp: &ProxyParams, generation: u64) -> SimProxy {
     let config = Arc::new(proxy_config(addr, pp));
-    let src = format!("proxy:{}", addr);
+    let src = format!("proxy:{}#{}", addr, generation);
     let client_factory = SimClientFactory {
         net: net.clone(),
         src: src.clone(),
@@ -132,6 +132,8 @@ pub struct BrokerHolder {
     pub svc: Mutex<Arc<MemBrokerService>>,
     pub cfg: BrokerCfg,
     pub commits_ok: Mutex<Vec<(u64, String)>>,
+    /// (seq, coordinator label, src proxy, dst proxy)
+    pub commit_rounds: Mutex<Vec<(u64, String, String, String)>>,
     pub commits_notfound: AtomicU64,
 }
 
@@ -142,6 +144,7 @@ impl BrokerHolder {
             svc: Mutex::new(Arc::new(svc)),
             cfg,
             commits_ok: Mutex::new(vec![]),
+            commit_rounds: Mutex::new(vec![]),
             commits_notfound: AtomicU64::new(0),
         })
     }
@@ -335,6 +338,9 @@ impl MetaManipulationBroker for SimBrokerClient {
                     Ok(()) => {
                         let seq = self.net.event("commit_ok", 9, &key);
                         self.holder.commits_ok.lock().push((seq, key.clone()));
+                        if let Some(m) = meta.slot_range.tag.get_migration_meta() {
+                            self.holder.commit_rounds.lock().push((seq, self.src.clone(), m.src_proxy_address.clone(), m.dst_proxy_address.clone()));
+                        }
                     }
                     Err(MetaStoreError::MigrationTaskNotFound) => {
                         self.holder.commits_notfound.fetch_add(1, std::sync::atomic::Ordering::SeqCst);
@@ -396,22 +402,22 @@ pub fn spawn_coordinator(net: &Net, holder: &Arc<BrokerHolder>, idx: usize, enab
     let svc: Arc<CoordSvc> = Arc::new(CoordinatorService::new(config, data, mani, factory));
     let mut handles = vec![];
     let s = svc.clone();
-    handles.push(tokio::spawn(async move {
+    handles.push(tokio::spawn(crate::simnet::LOOP_KIND.scope("detect", async move {
         let _ = s.verif_loop_detect().await;
-    }));
+    })));
     let s = svc.clone();
-    handles.push(tokio::spawn(async move {
+    handles.push(tokio::spawn(crate::simnet::LOOP_KIND.scope("psync", async move {
         let _ = s.verif_loop_proxy_sync().await;
-    }));
+    })));
     let s = svc.clone();
-    handles.push(tokio::spawn(async move {
+    handles.push(tokio::spawn(crate::simnet::LOOP_KIND.scope("msync", async move {
         let _ = s.verif_loop_migration_sync().await;
-    }));
+    })));
     if !disable_failover {
         let s = svc;
-        handles.push(tokio::spawn(async move {
+        handles.push(tokio::spawn(crate::simnet::LOOP_KIND.scope("failover", async move {
             let _ = s.verif_loop_failure_handler().await;
-        }));
+        })));
     }
     Coordinator { idx, handles }
 }
